@@ -999,6 +999,54 @@ func (cacheStream) Execute(c Case) {
 				aux = append(aux, fmt.Sprintf("the same failing request twice: unresolved %q then %q", um, um2))
 			}
 			again("after a failed request")
+			// other requests in between: every listed device on its own (whatever it brings: RDT settings, hooks, ...),
+			// each compared with what a cache created just now gives; then the first request once more
+			nw0, _ := c["nowatch"].(bool)
+			late0, _ := c["latedirs"].(bool)
+			if !auto && !nw0 && !late0 {
+				fresh, _ := cdi.NewCache(cdi.WithSpecDirs(dirs...), cdi.WithAutoRefresh(false))
+				listed := cache.ListDevices()
+				if len(listed) > 6 {
+					listed = listed[:6]
+				}
+				for _, d := range listed {
+					t1, t2 := mk(), mk()
+					u1, e1 := cache.InjectDevices(t1, d)
+					u2, e2 := fresh.InjectDevices(t2, d)
+					if fmt.Sprint(u1, e1 != nil, jsonImage(t1)) != fmt.Sprint(u2, e2 != nil, jsonImage(t2)) {
+						aux = append(aux, fmt.Sprintf("injection of %q on a cache that served other requests before differs from a new cache's: %s vs %s", d, jsonImage(t1), jsonImage(t2)))
+					}
+				}
+				again("after injections of the other devices")
+				// the caller re-uses one OCI spec object, reset to the same content, for consecutive injections
+				reuse := mk()
+				_, _ = cache.InjectDevices(reuse, req...)
+				*reuse = *mk()
+				ur, er := cache.InjectDevices(reuse, req...)
+				if got := fmt.Sprint(ur, er != nil, jsonImage(reuse)); got != first {
+					aux = append(aux, "InjectDevices into a re-used OCI spec object (reset to the same content) gives another result")
+				}
+				// a manually refreshed cache is a snapshot: a Spec file that appears on disk is not seen before Refresh(),
+				// whatever is requested meanwhile - in particular not because a request failed
+				var probeDir string
+				for _, d := range dirs {
+					if fi, err := os.Stat(d); err == nil && fi.IsDir() {
+						probeDir = d
+					}
+				}
+				if probeDir != "" {
+					imgBefore := fmt.Sprint(cache.ListDevices(), cache.ListVendors(), cache.ListClasses())
+					probe := filepath.Join(probeDir, "zz-snapshot-probe.json")
+					_ = os.WriteFile(probe, []byte(`{"cdiVersion":"0.6.0","kind":"snapshot-probe.com/x","devices":[{"name":"p","containerEdits":{"env":["P=1"]}}]}`), 0o644)
+					_, _ = cache.InjectDevices(mk(), mixed...)
+					_, _ = cache.InjectDevices(mk(), "snapshot-probe.com/x=p")
+					if img := fmt.Sprint(cache.ListDevices(), cache.ListVendors(), cache.ListClasses()); img != imgBefore {
+						aux = append(aux, "a failing injection made a manually refreshed cache reload its directories: "+imgBefore+" -> "+img)
+					}
+					_ = os.Remove(probe)
+					again("after a Spec file appeared and disappeared without a refresh")
+				}
+			}
 			// finally every Spec file goes away: after a refresh the very same request - into the very OCI spec that was
 			// injected into before - names every device as unresolvable and leaves that spec as it is
 			late, _ := c["latedirs"].(bool)
